@@ -490,7 +490,8 @@ def gen_C05(rng, tier):
         out.append(('ff asm inverse %d %d' % (rng.choice([0, 1]), x), 'inverse' + ('/zero' if x == 0 else '')))
         y = rng.choice(vals)
         out.append(('ff asm div %d %d %d' % (rng.choice([0, 1, 2]), x, y), 'div' + ('/by-zero' if y == 0 else '')))
-        e = rng.choice([0, 1, 2, 3, 5, Q - 1, Q - 2, Q, 2**256, rng.randrange(2**rng.randrange(1, 300))])
+        e = rng.choice([0, 1, 2, 3, 5, Q - 1, Q - 2, Q, 2**256, rng.randrange(2**rng.randrange(1, 300)),
+                        2 * (Q - 1), (Q - 1) << 64, (Q - 1) ** 2, 3 * (Q - 1) + 1, 5 * (Q - 1) - 1, Q * (Q - 1), 2**254, 2**255 - 1, 2**512 - 1])
         out.append(('ff asm exp %d %d' % (x, e), 'exp' + ('/e=0' if e == 0 else '/e>=2^256' if e >= 2**256 else '')))
     for ln in (0, 1, 2, 3, 5, 9):
         l = [rng.choice(vals + [0]) for _ in range(ln)]
@@ -525,7 +526,8 @@ def gen_C09(rng, tier):
             out.append(('ffg %s %d' % (op, x), op))
         y = rng.choice(cls)
         out.append(('ffg div %d %d %d' % (rng.choice([0, 1, 2]), x, y), 'div' + ('/by-zero' if y == 0 else '')))
-        e = rng.choice([0, 1, 2, PG - 1, PG - 2, 2**64, rng.randrange(2**rng.randrange(1, 130))])
+        e = rng.choice([0, 1, 2, PG - 1, PG - 2, 2**64, rng.randrange(2**rng.randrange(1, 130)),
+                        2 * (PG - 1), (PG - 1) << 64, (PG - 1) ** 2, 3 * (PG - 1) + 1, 2**64 - 1, 2**128 - 1])
         out.append(('ffg exp %d %d' % (x, e), 'exp' + ('/e=0' if e == 0 else '')))
     for v in [0, 1, PG - 1, PG, PG + 1, 2**64 - 1, 2**64 - 2**32, 2**63] + [rng.randrange(PG, 2**64) for _ in range(20)] + [rng.randrange(2**64) for _ in range(20)]:
         out.append(('ffg setuint64 %d' % v, 'setuint64/' + ('>=p' if v >= PG else '<p')))
@@ -648,4 +650,35 @@ def gen_C02(rng, tier):
     for m in (Q, Q + 1, -1, 2**256):
         out.append(('signp %s %d' % (hexb(ks[2]), m), 'SignPoseidon/msg-out-of-field'))
         out.append(('signm %s %d' % (hexb(ks[2]), m), 'SignMimc7/msg-out-of-field'))
+    return out
+
+
+# --------------------------------------------------------------------------- C16 extras
+def gen_C16_globals(rng, tier):
+    """calls that receive the package-level objects THEMSELVES (and out-of-range / negative
+    values) as arguments: an in-place operation on an argument then corrupts package state"""
+    G = ['gQ', 'gZero', 'gOne', 'gMinusOne', 'gA', 'gD', 'gOrder', 'gSubOrder', 'gB8x', 'gB8y']
+    out = []
+    for g in G:
+        g2 = rng.choice(G)
+        out += [('infield ' + g, 'global-arg/infield'), ('lebytes ' + g, 'global-arg/lebytes'), ('csign ' + g, 'global-arg/csign'),
+                ('packsigny true ' + g, 'global-arg/packsigny'), ('fromsigny false ' + g, 'global-arg/fromsigny'),
+                ('fromsigny true ' + g, 'global-arg/fromsigny'),
+                ('mimc7 %s %s' % (g, g2), 'global-arg/mimc7'), ('mimc7g %s %s 3' % (g, g2), 'global-arg/mimc7g'),
+                ('mimchash %s [1,2]' % g, 'global-arg/mimc-key'), ('mimchashg %s [1,2] 2' % g, 'global-arg/mimc-iv'),
+                ('mul %s gB8x gB8y' % g, 'global-arg/mul'), ('mulB8 ' + g, 'global-arg/mulB8'),
+                ('incurve %s %s' % (g, g2), 'global-arg/incurve'), ('insub %s %s' % (g, g2), 'global-arg/insub'),
+                ('padd %s %s gB8x gB8y' % (g, g2), 'global-arg/padd'), ('compress %s %s' % (g, g2), 'global-arg/compress'),
+                ('ff asm setbigint 0 ' + g, 'global-arg/ff.SetBigInt'), ('ffg setbigint 0 ' + g, 'global-arg/ffg.SetBigInt'),
+                ('ff asm exp 5 ' + g, 'global-arg/ff.Exp'), ('poseidon %s 1 [1]' % g, 'global-arg/poseidon-initstate'),
+                ('scalarpublic ' + g, 'global-arg/scalarpublic'),
+                ('verifyp gB8x gB8y %s gB8x gB8y %s' % (g, g2), 'global-arg/verify'),
+                ('sigcomp gB8x gB8y ' + g, 'global-arg/sigcomp')]
+    for v in (-1, -5, -Q, -Q - 3, Q, Q + 7, 3 * Q + 11, 2**256, -2**300):
+        out += [('fromsigny false %d' % v, 'out-of-range/fromsigny'), ('mimc7 %d %d' % (v, -v), 'out-of-range/mimc7'),
+                ('mimchash %d [3]' % v, 'out-of-range/mimc-key'), ('incurve %d %d' % (v, v + 1), 'out-of-range/incurve'),
+                ('mul %d %d %d' % (abs(v), B8[0] + Q, B8[1] - 2 * Q), 'out-of-range/mul-noncanonical-point'),
+                ('ff asm setbigint 0 %d' % v, 'out-of-range/SetBigInt'), ('elarr [%d,%d]' % (v, -v), 'out-of-range/elarr'),
+                ('poseidon %d 1 [%d]' % (v, v), 'out-of-range/poseidon'), ('packsigny false %d' % v, 'out-of-range/packsigny')]
+    out += [('incurveB8', 'global-receiver/B8'), ('compressB8', 'global-receiver/B8')]
     return out
